@@ -71,7 +71,8 @@ def failed_files(make_output):
 
 
 T_PREFIXES = ("Generated/", "Numeric/Atoms", "Numeric/RipassoFacts", "Numeric/Rescale", "Props/C02", "Props/C12",
-              "Props/C13", "Props/C14n", "Numeric/GuardConstants", "Numeric/ForgeConstants", "Props/C01n")
+              "Props/C13", "Props/C14n", "Numeric/GuardConstants", "Numeric/ForgeConstants", "Props/C01n",
+              "Numeric/DFT")
 
 
 def is_tfile(f):
